@@ -44,6 +44,7 @@ St0 == [p |-> Proc0,
         pidx |-> 0, role |-> "", resume |-> "",
         cur |-> "", curIt |-> 0,
         seen |-> {},             \* <<t, it>> started anywhere
+        order |-> <<>>,          \* the same pairs in start order
         where |-> {},            \* <<layer, pidx>> : a test of layer ran in pidx
         procBad |-> FALSE,       \* a finished test of this process was bad
         procSUFail |-> FALSE,    \* a layer setUp raised in this process
@@ -148,6 +149,7 @@ Step(w, o, s, e) ==
              s2 == NoteAll(s1, <<C01(TestStartErr(w, s1.p, tl)), C05(b[1]), C03(c03), C16(c16)>>)
          IN [s2 EXCEPT !.p = b[2], !.cur = e.t, !.curIt = e.it,
                        !.seen = @ \cup {<<e.t, e.it>>},
+                       !.order = Append(@, <<e.t, e.it>>),
                        !.where = @ \cup {<<tl, s2.pidx>>}]
     [] e.e = "PX" ->
          LET s1 == FinishCur(w, s)
@@ -329,10 +331,39 @@ Final(w, o, s, r) ==
                            \/ \E t \in Tests(w) : CountIn(r.errIds, t) # CountIn(r.peers[k].errBag, t)
                    THEN "C12:modes-lists-differ"
               ELSE ""
+      \* --list-tests: precisely the selected set, per layer, each once
+      ListedOf(lst, l) ==
+        LET idx == {k \in 1..Len(lst) : lst[k][1] = l}
+        IN IF idx = {} THEN <<>> ELSE lst[CHOOSE k \in idx : TRUE][2]
+      AllL == Layers(w) \cup {Unit}
+      c03l == IF ~o.list \/ r.crashed # "" \/ w.importFails THEN ""
+              ELSE IF r.listUnknown > 0 THEN "C03:list-unknown-name"
+              ELSE IF \E a, b \in 1..Len(r.listing) : a # b /\ r.listing[a][1] = r.listing[b][1]
+                   THEN "C03:list-layer-twice"
+              ELSE IF \E l \in AllL :
+                        SeqSet(ListedOf(r.listing, l)) # {t \in Selected(w, o) : LayerOf(w, t) = l}
+                   THEN "C03:list-set"
+              ELSE IF \E l \in AllL : ~NoDup(ListedOf(r.listing, l)) THEN "C03:list-twice"
+              ELSE ""
+      \* a run executes each layer's tests in the order the listing shows
+      \* (tests that execute no code - decorator skips - are not observable)
+      OwnOrder(l, it) == SelectSeq(s.order, LAMBDA x : x[2] = it /\ LayerOf(w, x[1]) = l)
+      Obs(q) == SelectSeq(q, LAMBDA t : ~w.decoSkip[t])
+      c03m == IF o.list \/ o.stop \/ r.crashed # "" \/ s.crashes > 0 \/ s.suFailed # {} THEN ""
+              ELSE IF \E k \in 1..Len(r.peers) : r.peers[k].isList /\ r.peers[k].crashed = "" /\
+                        \E l \in AllL : \E it \in 1..o.repeat :
+                           [j \in 1..Len(OwnOrder(l, it)) |-> OwnOrder(l, it)[j][1]]
+                             # Obs(ListedOf(r.peers[k].listing, l))
+                   THEN "C03:list-order-differs-from-run"
+              ELSE IF \E k \in 1..Len(r.peers) : ~r.peers[k].isList /\ PeerOK(r.peers[k]) /\
+                        {<<r.peers[k].execPairs[j][1], r.peers[k].execPairs[j][2]>> :
+                             j \in 1..Len(r.peers[k].execPairs)} # s.seen
+                   THEN "C03:modes-execute-different-tests"
+              ELSE ""
       c02b == IF o.list THEN ""
               ELSE IF \E k \in 1..Len(r.peers) : PeerOK(r.peers[k]) /\ r.peers[k].failed # r.failed
                    THEN "C02:modes-verdict-differs" ELSE ""
-  IN NoteAllF(s, <<C04(c04), C04(c04b), C03(c03), C03(c03b), C01(c01), C02(c02), C02(c02b),
+  IN NoteAllF(s, <<C04(c04), C04(c04b), C03(c03), C03(c03b), C03(c03l), C03(c03m), C01(c01), C02(c02), C02(c02b),
                   C16(c16), C12(c12a), C12(c12b), C12(c12c), C12(c12d)>>)
 
 (* ----- behaviour -----------------------------------------------------------*)
